@@ -4,6 +4,9 @@ if "FILE_JOB" not in globals():
     _p7 = _os7.path.join(_os7.path.dirname(_os7.path.abspath(_f)), "spec_C18.py")
     exec(compile(open(_p7).read(), _p7, "exec"), globals())
 C07_FILE_JOBS = [
+    dict(name="reader-cell-chunk-sym", harness="C07_file.cpp", entries=["harness_cell_chunk_sym"], shards=[{1: 0}], timeout=600,
+         bounds="reader state after VERT (4) + EDGES (6) + one accepted FACE chunk; CELL chunk with two SYMBOLIC 1-byte halfface handles and a SYMBOLIC 64-bit handle_offset (bottom-up incidences off as in the reader): "
+                "no memory error; accepted => exactly one cell whose halfface handles are the file values + handle_offset and designate existing halffaces", **FILE_JOB),
     dict(name="reader-edge-chunk", harness="C07_file.cpp", entries=["harness_edge_chunk"], shards=[{0: 1, 1: 1}, {0: 2, 1: 1}, {0: 4, 1: 1}], timeout=600, tiers=["thorough"],
          bounds="read_topo_chunk on a one-edge TOPO chunk, 4 vertices read so far: symbolic span.first, handle_encoding byte, handle_offset (64 bit) and handle bytes: "
                 "no memory error; accepted => exactly one edge whose vertex handles are < 4", **FILE_JOB),
